@@ -429,6 +429,8 @@ class FunctionVC:
             I.assume(I.spec_bool(r))
         for r in c.assumes:
             I.assume(I.spec_bool(r))
+        for r in c.ghost.get('lemmas', []):
+            I.assume(I.spec_bool(r))
         I.old_env = {n: models.snapshot(v) for n, v in env.items()}
         if not I.path.taken and not I.path.prefix:
             I.cover('%s.cover.pre' % self.qual)
@@ -651,4 +653,6 @@ def reify(v, model):
         if z3.is_true(ev(Val.is_tok(t))):
             return reify(wrap(Ty('Token'), Val.t(t)), model)
         return {'k': 'obj', 'oid': ev(Val.oid(t)).as_long()}
+    if isinstance(v, VRec):
+        return {'k': 'rec', 'cls': v.cls, 'fields': {f: reify(x, model) for f, x in v.fields.items()}}
     return {'k': 'opaque', 'repr': repr(v)}
